@@ -648,6 +648,14 @@ class RT:
                     out[k] = v
             return out
         if any(is_symbolic(k) and not isinstance(k, SymEnum) for k in keys):
+            if len(keys) == 1:
+                # {k: v} with a symbolic key: a one-entry symbolic map
+                ksp, vsp = ty.spec_of_value(keys[0]), ty.spec_of_value(vals[0])
+                if ksp is not None and vsp is not None:
+                    m = ty.MapOf(ksp, vsp).empty(cur().fresh_name("dict1"))
+                    m[keys[0]] = vals[0]
+                    sym.mark_born(m)
+                    return m
             raise Unsupported("dict display with symbolic keys")
         return dict(zip(keys, vals))
 
